@@ -766,6 +766,9 @@ func CondWait(c *sync.Cond, site int32) {
 		return
 	}
 	g := s.me()
+	if ParkHook != nil {
+		ParkHook(g.Name, site, "cond")
+	}
 	LockerUnlock(c.L)
 	s.mu.Lock()
 	cs := s.conds[c]
